@@ -230,15 +230,29 @@ fn generate(seed: u64, n: usize, tier: &str, out: &mut impl Write) {
             }
         }
     }
-    //    Pairs: quick = first <= 2, second <= 8, limits <= 10, overlaps <= 3 (mixed CLS/SEP
-    //    combinations thinned out); thorough = first <= 12 x second <= 12 x limits <= 12 x
-    //    overlaps <= 8, all four CLS/SEP combinations.
-    let (m1, m2, ml, mo) = if thorough { (12, 12, 12, 8) } else { (2, 8, 10, 3) };
-    for n1 in 0..=m1 {
+    //    Pairs.  Limits are taken relative to the part of the budget that is fixed for the
+    //    pair (special tokens + first sequence): None, 0, fixed-1 (no room), fixed+d for
+    //    d = 0..=D -- absolute limits <= 8 would leave no room for the second sequence as soon
+    //    as the first has a few tokens.
+    //    quick: first in {0,1,2}, second <= 8, D = 6, overlaps <= 3, mixed CLS/SEP thinned;
+    //    thorough: first in {0,1,2,3,5,8,12}, second <= 12, D = 9, overlaps <= 8, all CLS/SEP.
+    let firsts: &[usize] = if thorough { &[0, 1, 2, 3, 5, 8, 12] } else { &[0, 1, 2] };
+    let (m2, md, mo) = if thorough { (12, 9, 8) } else { (8, 6, 3) };
+    for &n1 in firsts {
         for n2 in 0..=m2 {
-            for limit in limits(ml) {
-                for overlap in 0..=mo {
-                    for (cls, sep) in flags {
+            for (cls, sep) in flags {
+                let fixed = n1 + cls as usize + 2 * sep as usize;
+                let mut lims: Vec<Option<usize>> = vec![None, Some(0)];
+                if fixed >= 2 {
+                    lims.push(Some(fixed - 1));
+                }
+                for d in 0..=md {
+                    if fixed + d > 0 {
+                        lims.push(Some(fixed + d));
+                    }
+                }
+                for limit in lims {
+                    for overlap in 0..=mo {
                         if !thorough && cls != sep && (n1 + n2 + overlap) % 2 == 1 {
                             continue;
                         }
